@@ -28,7 +28,12 @@ import (
 	"layeh.com/radius/dictionarygen"
 )
 
-const repo = "/repo"
+var repo = func() string {
+	if r := os.Getenv("VERIF_REPO"); r != "" {
+		return r
+	}
+	return "/repo"
+}()
 
 type pkgInfo struct {
 	alias      string // import alias
